@@ -35,6 +35,8 @@ CLAIMS["C14"] = ("Coq theorems C14_*: EAN CheckSum() = last digit of Content = G
 
 CLAIMS["C03"] = ("Coq theorem C03_roundtrip (closed, no axioms): for EVERY payload (bytes, length < 2^57), percentage >= 0 (with hlbits*pct < 2^63, the range in which Go's int arithmetic agrees with Z) and layer request for which the Aztec model returns a barcode, the ISO 24778 reference reader (size, bullseye/orientation marks, GF(16) mode message and its agreement with the size, reference grid, spiral extraction, RS syndromes in the field of the word size, un-stuffing, Upper/Lower/Mixed/Punct/Digit/Binary-shift decoder) validates the pixels and returns exactly the payload, and an explicit layer request is honoured. Layers: generated char/latch/shift tables vs the ISO tables; the high-level state-list search decodes back for all byte strings (invariant over the search); stuffing; layout of all 36 configurations; RS validity via rs_encode_valid at the five ISO fields. Tied to the code by generated tables, bit-string and placement hooks, and the extracted reader run on the implementation's pixels.", "DESIGN.md §5 C03")
 
+CLAIMS["C04"] = ("Coq theorem C04_roundtrip (closed, no axioms): for EVERY byte string, security level 0..255 and column count for which the PDF417 model returns a barcode, the ISO 15438 reference reader (start/stop, cluster of every row, left/right indicators agreeing on rows/cols/level, pattern -> codeword per cluster, RS syndromes over GF(929) at 3^1..3^k, length descriptor/padding, text/byte/numeric compaction decoder with all latches, shifts and sub-modes) validates the pixels and returns exactly the data. Layers: all 3x929 patterns well-formed and distinct per cluster (= pinned copy), correction factors = kernel-computed generator products, mixed/punct tables; LFSR Compute = remainder (invariant at the roots); numeric base-900 and six-pack round trips; text sub-mode invariant incl. pad 29 in Punct; segmentation soundness under Go's rune conversion; indicator arithmetic for all shapes. The column count is an oracle read from the implementation's output (aspect-ratio heuristic not modelled). Tied to the code by generated tables, codeword/indicator hooks, and the extracted reader run on the implementation's pixels.", "DESIGN.md §5 C04")
+
 ALL = ["C%02d" % i for i in range(1, 19)]
 
 
